@@ -43,6 +43,9 @@ class GenModel:
             self.files[step["path"]] = step["spec"]
         elif op == "rm":
             self.files.pop(step["path"], None)
+        elif op == "rmfiles":
+            for f in self.files_under(step["path"]):
+                self.files.pop(f, None)
         elif op == "rmtree":
             p = step["path"]
             for f in [f for f in self.files if f.startswith(p + "/")]:
@@ -142,6 +145,11 @@ def draw_step(draw, m, kind, cfg):
         if not m.files:
             return None
         return {"op": "rm", "path": _pick(draw, sorted(m.files))}
+    if kind == "rmfiles":
+        cand = [d for d in [""] + sorted(m.dirs) if m.files_under(d)]
+        if not cand:
+            return None
+        return {"op": "rmfiles", "path": _pick(draw, cand)}
     if kind == "rmtree":
         cand = [d for d in sorted(m.dirs) if cfg.get("rm_histories", False) or not m.has_root_below(d)]
         if not cand:
@@ -248,6 +256,9 @@ def apply_step(world, scn, step, **kw):
         world.put(W(step["path"]), step["spec"])
     elif op == "rm":
         world.rm(W(step["path"]))
+    elif op == "rmfiles":
+        for f in [f for f in sorted(world.files) if world.under(f, W(step["path"])) and not world.is_default_ignored(f)]:
+            world.rm(f)
     elif op == "rmtree":
         world.rmtree(W(step["path"]))
     elif op == "mkdir":
